@@ -1,4 +1,4 @@
-"""C11 -- undo and redo are exact inverses (clauses R11.1-R11.4)."""
+"""C11 -- undo and redo are exact inverses (clauses R11.1-R11.6)."""
 from __future__ import annotations
 
 import ast
@@ -15,7 +15,7 @@ EXPLANATION = (
     "create(r)<->remove(r).  R11.2: the composite undoes in the reverse of do order.  R11.3: history stack "
     "discipline -- emptiness guard dominates undo/redo, do clears redo and trims after every append, each "
     "_perform_* iteration moves exactly one element between the stacks.  R11.4: the dependency test is symmetric in "
-    "containment.  R11.5: undo(drop=True) deletes exactly the N redo entries it just created.  Decides inverse *shape*, not content equality of trees."
+    "containment.  R11.5: undo(drop=True) deletes exactly the N redo entries it just created.  R11.6: the properties of History (the limit among them) are pure read-throughs (no store into self).  Decides inverse *shape*, not content equality of trees."
 )
 ASSUMPTIONS = ["_ResourceOperations primitives do what their names say (C13/C16 check notify and codec separately)"]
 
@@ -249,6 +249,30 @@ def check(ctx, res) -> None:
                 "History.undo(change, drop=True) does not delete exactly the N entries it just moved to the redo list (N = number of dependent "
                 "changes undone): dependents of the dropped change stay redoable on a base that no longer exists, so redo/undo stop being inverses")
     # the returned list is the same slice
+    # ---- R11.6 the limit (and every other property the stack discipline reads) is a pure read-through: a getter that
+    # stores into self freezes the first answer, so a limit configured later is ignored and the undo list outgrows it
+    n6 = 0
+    for pname_, m in sorted(hist.methods.items()):
+        if "property" not in m.decorator_names():
+            continue
+        n6 += 1
+        writes = []
+        for st in walk_local(m.node):
+            if isinstance(st, (ast.Assign, ast.AugAssign, ast.AnnAssign)):
+                for t in (st.targets if isinstance(st, ast.Assign) else [st.target]):
+                    if is_self_attr(t):
+                        writes.append((st, t.attr))
+            if isinstance(st, ast.stmt):
+                for e in common.mutated_exprs(st):
+                    if is_self_attr(e):
+                        writes.append((st, e.attr))
+        res.add("R11.6", f"History.{pname_}|pure-getter", not writes, m.where if not writes else f"{m.unit.rel}:{writes[0][0].lineno}",
+                "the getter stores nothing into the history object" if not writes else
+                f"the property History.{pname_} stores into self.{writes[0][1]} when it is read: the first value computed (e.g. the max_history_items "
+                "preference in force at the first change) is frozen, so a limit configured afterwards is ignored and the undo list exceeds it",
+                function=m.qualname)
+    res.floor("R11.6", "History properties", n6, 2)
+
     # ---- R11.4 symmetric containment
     dep = idx.need_func("rope.base.history._FindChangeDependencies._depends_on")
     pairs = set()
